@@ -82,7 +82,7 @@ func c26Worker(w *WorkerCtx) {
 			if first != nil {
 				cu, _ := json.Marshal(c28Custom{Item: it, Engine: engine, Faults: firstFaults})
 				rf := &ReplayFile{Property: "C26", Oracle: first.Oracle, VerifSeed: int64(w.Seed), Tier: w.Tier, Minimised: true, Kind: "c26try", Custom: cu, Violation: first}
-				res.Replay = WriteReplay(filepath.Join(verifDir(), "replay"), rf, "tryUpdate-"+engine)
+				res.Replay = WriteReplay(filepath.Join(outDir(), "replay"), rf, "tryUpdate-"+engine)
 				res.Violations = append([]Violation{*first}, res.Violations...)
 			}
 			w.Emit(res)
